@@ -140,7 +140,11 @@ class Cond:
         """variant name -> target bb; 'otherwise' key for the default edge."""
         m = {}
         names = enum_variants(prog, self.enum_ty) if self.enum_ty else {}
+        dty = (self.t.get("dty") or "").strip()
+        sbits = {"i8": 8, "i16": 16, "i32": 32, "i64": 64, "isize": 64, "i128": 128}.get(dty)
         for v, t in self.arms:
+            if sbits and v >= (1 << (sbits - 1)):
+                v -= 1 << sbits
             m[names.get(v, v)] = t
         m["otherwise"] = self.otherwise
         # when all but one variant are listed, the otherwise edge is that variant (or unreachable)
